@@ -94,6 +94,28 @@ def guess_lengths(path):
     None for the Markov structure"""
     pcfg = ptq.load_pcfg(path)
     out = []
+    n_pts = 0
+    for b in pcfg.base:
+        k_ = 1
+        for t in b['replacements']:
+            k_ *= max(1, len(pcfg.grammar.get(t, [])))
+        n_pts += k_
+    if n_pts > 20000:
+        # a ruleset of real size (the shipped ones): the guesses of a structure are the product of independent choices, so the
+        # shortest / longest guess is the sum of the shortest / longest value of every variable - no enumeration
+        span = {}
+        for t, groups in pcfg.grammar.items():
+            if t[0] in 'CM':
+                continue
+            ls = [len(v) for g in groups for v in g['values']]
+            span[t] = (min(ls), max(ls)) if ls else (0, 0)
+        for b in pcfg.base:
+            if 'M' in b['replacements']:
+                out.append(None)
+                continue
+            reps = [t for t in b['replacements'] if t[0] != 'C']
+            out.append((sum(span.get(t, (0, 0))[0] for t in reps), sum(span.get(t, (0, 0))[1] for t in reps)))
+        return out
     by_base = {}
     for b, pt in expand.all_pts(pcfg):
         by_base.setdefault(id(b), []).append(pt)
@@ -145,6 +167,20 @@ def main(pid, tier, seed):
         if any('A101' in s_ for s_, _ in base):
             # a bound only the three-digit structure satisfies
             jobs.append(dict(k=k, e=n_edits, name=name, mn=100, mx=rng.choice([0, 103, 110]), ts=None, rx=None, copy=False, with_x=with_x, base=base))
+
+    # ---- the shipped ruleset (every label shape the trainer emits on real data: three-digit lengths, years, context strings,
+    # ---- walks, more than ten thousand structures) through the same edits
+    n_shipped = 0
+    sd_ = os.path.join(core.REPO, 'Rules', 'Default')
+    if os.path.isdir(os.path.join(sd_, 'Grammar')):
+        shutil.copytree(sd_, os.path.join(rcopy, 'Rules', 'shipped'))
+        sbase = [(x['label'], x['p']) for x in read_grammar(sd_)]
+        sedits = [dict(mn=8, mx=8), dict(mn=0, mx=6), dict(mn=12, mx=0), dict(mn=0, mx=0, ts='A,D'), dict(mn=6, mx=10, rx=[r'^A\d+D\d+$']),
+                  dict(mn=0, mx=0, ts='A,D,O,K,Y,X', rx=['Y']), dict(mn=100, mx=0), dict(mn=1, mx=1)]
+        for e_, ed in enumerate(sedits[:3] + [rng.choice(sedits[3:])] if tier == 'quick' else sedits):
+            jobs.append(dict(k=n_rules, e=e_, name='shipped', mn=ed.get('mn', 0), mx=ed.get('mx', 0), ts=ed.get('ts'), rx=ed.get('rx'),
+                             copy=(e_ % 2 == 0), with_x=True, base=[[s_, 0] for s_, _ in sbase[:40]]))
+            n_shipped += 1
 
     def runjob(j):
         # every edit works on its own private copy of the generated ruleset
@@ -266,7 +302,7 @@ def main(pid, tier, seed):
            'model_checking': mc, 'evaluations': len(jobs), 'distinct_nontrivial': distinct,
            'rule': 'one trace = one real edit_rules.py subprocess on a private copy of a generated ruleset (random filters, '
                    'with/without --copy) followed by the real guesser on the result; non-trivial = at least one structure removed',
-           'rulesets': n_rules, 'with_context_labels': sum(1 for j in jobs if j['with_x']),
+           'rulesets': n_rules, 'edits_of_the_shipped_ruleset': n_shipped, 'with_context_labels': sum(1 for j in jobs if j['with_x']),
            'trace_validation': st, 'exhaustive': False, 'known_findings_reproduced': n_known, 'binding_selftest': selftest,
            'violation_histogram': verdict.histogram()}
     core.write_evidence(pid, tier, seed, 'model_checking', cov, time.time() - t0, violations=n_viol,
